@@ -18,7 +18,12 @@ LEVEL = "exploration"
 
 NAMES = ["a", "b", "c"]
 EXTRA = "z"  # listed but not among the reads
-BLOCK = {"a": ("chr1", "11"), "b": ("chr1", "11"), "c": ("chr1", "77"), "z": ("chr2", "5")}
+# (chromosome, phase set) of every list entry; layouts 1 and 2 re-use a phase set id on a second chromosome
+BLOCKS = [
+    {"a": ("chr1", "11"), "b": ("chr1", "11"), "c": ("chr1", "77"), "z": ("chr2", "5")},
+    {"a": ("chr1", "11"), "b": ("chr1", "11"), "c": ("chr1", "77"), "z": ("chr2", "77")},
+    {"a": ("chr1", "11"), "b": ("chr1", "77"), "c": ("chr1", "77"), "z": ("chr2", "11")},
+]
 
 
 def seq_of(i, length):
@@ -120,7 +125,10 @@ def option_vectors(ploidy, names, assign, zextra, fmt, lp, cols, header, T):
             continue  # -o must be given once per haplotype
         for add_untagged in (False, True):
             for discard in (False, True):
-                for largest in (False, True) if cols == 4 else (False,):
+                for largest, layout in ((False, 0), (True, 0), (True, 1), (True, 2)) if cols == 4 else ((False, 0),):
+                    BLOCK = BLOCKS[layout]
+                    if layout and not (T or (all(req) and not discard)):
+                        continue
                     if largest:
                         # no ties in block size (number of tagged reads per phase set)
                         cnt = {}
@@ -132,7 +140,7 @@ def option_vectors(ploidy, names, assign, zextra, fmt, lp, cols, header, T):
                             continue
                         if not cnt:
                             continue
-                    d = dict(base, req=list(req), add_untagged=add_untagged, discard=discard, largest=largest, style=style)
+                    d = dict(base, req=list(req), add_untagged=add_untagged, discard=discard, largest=largest, style=style, layout=layout)
                     yield d
                     if ploidy == 2 and all(req[1:]) and not T:
                         pass
@@ -154,6 +162,7 @@ def judge(inst):
     d = os.path.join(_scratch.path, f"p{os.getpid()}")
     os.makedirs(d, exist_ok=True)
     ploidy, names, assign, fmt = inst["ploidy"], inst["names"], inst["assign"], inst["fmt"]
+    BLOCK = BLOCKS[inst.get("layout", 0)]
     lens = [(i % 3 + 1) if inst["lp"] == 0 else (i + 1) % 3 for i in range(len(names))]
     reads_path = os.path.join(d, "reads." + fmt)
     recs = write_reads(reads_path, fmt, list(zip(names, lens)))
